@@ -12,7 +12,7 @@
 //        exception flag, read with fetestexcept after every call (IMATH_HALF_ENABLE_FP_EXCEPTIONS build)
 //   h2f_all <api> <canon>
 //   roundtrip_all <api> <canon>          half -> float -> half on the real code, all 2^16 patterns
-//   config | rm_control | round_all <n> | class_all | f2h <hex>.. | h2f <hex>..
+//   canon_all | config | rm_control | round_all <n> | class_all | f2h <hex>.. | h2f <hex>..
 //
 // Environment HALF_CORR_ROUND = ne | tz | up | dn : fesetround() in main and in every worker
 // thread before any conversion runs (the conversions must not depend on the caller's rounding
@@ -245,6 +245,13 @@ int main (int argc, char** argv)
         }
         chk_round ();
         return g_round_bad ? 4 : 0;
+    }
+    if (!strcmp (argv[1], "canon_all"))
+    {
+        // the harness' own NaN canonicalisers, so that the check can compare them with tools/halfspec.py's
+        for (uint32_t h = 0; h < 65536; ++h)
+            printf ("%x %x %x\n", canon16 ((uint16_t) h), canon32 (h << 16), canon32 ((h << 16) | 1u));
+        return 0;
     }
     if (!strcmp (argv[1], "roundtrip_all"))
     {
